@@ -145,12 +145,16 @@ class CFG:
                 return ("c", type(v.value).__name__, v.value)
             if isinstance(v, ast.JoinedStr):
                 return NNT if any(isinstance(x, ast.Constant) and x.value for x in v.values) else NN
-            if isinstance(v, (ast.Tuple, ast.List, ast.Set)) and not any(isinstance(x, ast.Starred) for x in v.elts):
+            if isinstance(v, ast.Tuple) and not any(isinstance(x, ast.Starred) for x in v.elts):
                 return NNT if v.elts else ("c", "empty", ())
+            # a list / set / dict display is a fresh MUTABLE object: its truth value holds until the object is changed in
+            # place or handed to someone who may change it (see `touch` below)
+            if isinstance(v, (ast.List, ast.Set)) and not any(isinstance(x, ast.Starred) for x in v.elts):
+                return ("m", bool(v.elts))
             if isinstance(v, ast.Dict):
                 if not v.keys:
-                    return ("c", "empty", ())
-                return NNT if any(k is not None for k in v.keys) else NN
+                    return ("m", False)
+                return ("m", True) if any(k is not None for k in v.keys) else NN
             if isinstance(v, (ast.ListComp, ast.SetComp, ast.DictComp, ast.GeneratorExp, ast.Lambda)):
                 return NN
             return TOP
@@ -158,6 +162,12 @@ class CFG:
         def decide(val, test: ast.expr):
             """outcome of ``test`` for abstract value ``val``: True / False / None (not decided)"""
             if val in (TOP, UNSET):
+                return None
+            if val[0] == "m":
+                if isinstance(test, ast.Name):
+                    return val[1]
+                if isinstance(test.ops[0], (ast.Is, ast.IsNot)) and test.comparators[0].value is None:
+                    return isinstance(test.ops[0], ast.IsNot)
                 return None
             if isinstance(test, ast.Name):
                 if val == NNT:
@@ -238,11 +248,32 @@ class CFG:
                 for x in walk_expr(e):
                     if isinstance(x, ast.NamedExpr) and isinstance(x.target, ast.Name):
                         bad.add(x.target.id)
+        # nodes at which the object a flag names may be changed in place or escapes to code that may change it: a subscript
+        # / attribute store or delete on it, a method call on it, the bare name handed to a call, stored into something,
+        # put into a display, yielded, awaited or captured by a nested function.  There a mutable value's truth is forgotten.
+        touch: dict[str, set[int]] = {}
+        for n in self.nodes:
+            roots = [n.ast] if n.kind in ("stmt", "funcdef") and n.ast is not None else [e for e in n.exprs if e is not None]
+            for r in roots:
+                plain_rhs = r.value if type(r) in (ast.Assign, ast.AnnAssign) and isinstance(getattr(r, "value", None), ast.Name) and all(
+                    isinstance(t, ast.Name) for t in (r.targets if isinstance(r, ast.Assign) else [r.target])) else None
+                test_names = set()
+                if n.kind == "test":
+                    e0 = n.exprs[0]
+                    if isinstance(e0, ast.Name):
+                        test_names.add(id(e0))
+                    elif isinstance(e0, ast.Compare) and isinstance(e0.left, ast.Name):
+                        test_names.add(id(e0.left))
+                for x in ast.walk(r):
+                    if isinstance(x, ast.Name) and isinstance(x.ctx, ast.Load) and x.id in tests_of and id(x) not in test_names:
+                        # any use other than being tested (or read as a subscript/attribute base, handled next) lets it escape
+                        touch.setdefault(x.id, set()).add(n.id)
         params = set(self.func.params)
         for name, tests in tests_of.items():
             defs = stores.get(name)
             if name in bad or not defs or all(v == TOP for v in defs.values()):
                 continue
+            tch = touch.get(name, set())
             for _round in range(4):
                 IN: dict[int, set] = {self.entry.id: {TOP if name in params else UNSET}}
                 work = deque([self.entry.id])
@@ -250,7 +281,12 @@ class CFG:
                     u = work.popleft()
                     cur = IN.get(u, set())
                     for dst, label, _exc in self.nodes[u].succ:
-                        out = {defs[u]} if (u in defs and label != "x") else cur
+                        if u in defs and label != "x":
+                            out = {defs[u]}
+                        elif u in tch:
+                            out = {NN if v[0] == "m" else v for v in cur}
+                        else:
+                            out = cur
                         before = IN.setdefault(dst, set())
                         if not out <= before:
                             before |= out
@@ -269,7 +305,7 @@ class CFG:
                         continue
                     # thread the incoming edges that decide the test
                     for (u, label, exc) in list(t.pred):
-                        ev = {defs[u]} if (u in defs and label != "x") else IN.get(u, set())
+                        ev = {defs[u]} if (u in defs and label != "x") else ({NN if v[0] == "m" else v for v in IN.get(u, set())} if u in tch else IN.get(u, set()))
                         eo = {decide(v, t.exprs[0]) for v in ev}
                         if len(eo) != 1 or None in eo or not ev:
                             continue
